@@ -51,8 +51,13 @@ def content(cls, name):
 
 def run_cli(args, cwd, timeout=60):
     env = dict(os.environ)
-    p = subprocess.run([sys.executable, "-m", "norminette"] + args, cwd=cwd, capture_output=True, text=True,
-                       timeout=timeout, env=env)
+    try:
+        p = subprocess.run([sys.executable, "-m", "norminette"] + args, cwd=cwd, capture_output=True, text=True,
+                           timeout=timeout, env=env)
+    except subprocess.TimeoutExpired:
+        from vp.replay.native import cli_timed_out
+        cli_timed_out(args, cwd, timeout)
+        raise
     return p.returncode, p.stdout, p.stderr
 
 
@@ -251,4 +256,5 @@ def main():
 
 
 if __name__ == "__main__":
-    main()
+    from vp.replay.native import guarded_main
+    guarded_main(main)
